@@ -84,6 +84,17 @@ class UFOpInPlace(UFOp):
         out[:] = _as_array(vals, self.cplx)
 
 
+class UFOpInPlaceSeq(UFOp):
+    """Same behaviour, implemented in place only and NOT alias-safe: the entries of out are written one after
+    the other and x is read again for each (like a finite-difference loop).  Correct wrappers never hand such an
+    operator an ``out`` that aliases its input unless the caller did."""
+
+    def _call(self, x, out):
+        for i in range(self.domain.size):
+            vals = self.values(list(flat(x)))
+            out[i] = vals[i]
+
+
 class UFFunc(Functional):
     def __init__(self, ctx, name, space, linear=False, w=None):
         super(UFFunc, self).__init__(space, linear=linear)
@@ -167,8 +178,8 @@ def build(t, env):
         return a + s
     if k == 'div':
         return a / s
-    if k == 'pow2':
-        return a ** 2
+    if k.startswith('pow'):
+        return a ** int(k[3:])
     b = build(t[2], env)
     if k == 'sum':
         return a + b
@@ -213,8 +224,11 @@ def ref_eval(t, env, x):
     if k == 'div':
         inv = 1 / s          # documented rewriting E / a = E * (1 / a)
         return ref_eval(t[1], env, [inv * e for e in x])
-    if k == 'pow2':
-        return ref_eval(t[1], env, ref_eval(t[1], env, x))
+    if k.startswith('pow'):                  # A ** n: n-fold composition
+        r = x
+        for _ in range(int(k[3:])):
+            r = ref_eval(t[1], env, r)
+        return r
     if k in ('sum', 'diff'):
         a, b = ref_eval(t[1], env, x), ref_eval(t[2], env, x)
         if isinstance(a, list):
@@ -235,7 +249,7 @@ def expected_linear(t, lin):
         return lin[k]
     if k in ('vsum', 'ssum', 'rsub_v', 'radd_v', 'rsub_s'):
         return False
-    if k in ('neg', 'lsc', 'rsc', 'lvec', 'rvec', 'div', 'pow2', 'lsc@', 'rsc@', 'lvec@', 'rvec@'):
+    if k in ('neg', 'lsc', 'rsc', 'lvec', 'rvec', 'div', 'lsc@', 'rsc@', 'lvec@', 'rvec@') or k.startswith('pow'):
         return expected_linear(t[1], lin)
     return expected_linear(t[1], lin) and expected_linear(t[2], lin)
 
@@ -263,7 +277,7 @@ def well_typed(t, fleaves):
         return fa == is_functional_valued(t[2], fleaves)
     if k in ('comp', 'matmul'):
         return not is_functional_valued(t[2], fleaves)       # inner must map X->X
-    if k in ('vsum', 'rsub_v', 'pow2', 'radd_v'):
+    if k in ('vsum', 'rsub_v', 'radd_v') or k.startswith('pow'):
         return not fa
     return True
 
@@ -286,6 +300,15 @@ def configs(tier, seed):
         for i in range(0, len(ts), chunk):
             out.append(('optree/%s/%04d' % (field, i // chunk),
                         dict(kind='op', field=field, trees=[tolist(t) for t in ts[i:i + chunk]])))
+    # iterated composition A ** n for every n up to 11 (the implementation may use any multiplication scheme)
+    for n in (1, 3, 4, 5, 6, 7, 8, 9, 10, 11) if tier == 'quick' else range(1, 17):
+        out.append(('optree/real/pow/%d' % n, dict(kind='op', field='real',
+                                                   trees=[['pow%d' % n, ['A']], ['pow%d' % n, ['lsc', ['L']]]])))
+    # wrappers around an in-place operator that is NOT alias-safe (out is never to be aliased with the inner input)
+    for i in range(0, len(d1) + 45, chunk):
+        ts = (d1 + sel[len(d1):len(d1) + 45])[i:i + chunk]
+        out.append(('optree/real/seq/%04d' % (i // chunk), dict(kind='op', field='real', unsafe=True,
+                                                               trees=[tolist(t) for t in ts])))
     FL = ('f', 'l', 'A', 'L')
     fleaves = ('f', 'l')
     fun_unary = ('neg', 'lsc', 'rsc', 'rvec', 'ssum', 'div', 'lvec', 'lsc@', 'rsc@', 'lvec@', 'rvec@', 'rsub_s')
@@ -320,7 +343,7 @@ def canaries(tier, seed):
 
 
 # -------------------------------------------------------------------- case
-def case(ctx, kind, trees, field='real'):
+def case(ctx, kind, trees, field='real', unsafe=False):
     sp = odl.rn(2) if field == 'real' else odl.cn(2)
     dt = 'float64' if field == 'real' else 'complex128'
     for i, tl in enumerate(trees):
@@ -335,7 +358,7 @@ def case(ctx, kind, trees, field='real'):
         v = ctx.element(sp, 'v%d' % i)
         M = ctx.array('L%d' % i, (2, 2), dt)
         A = UFOp(ctx, 'A%d_' % i, sp)
-        B = UFOpInPlace(ctx, 'B%d_' % i, sp)
+        B = (UFOpInPlaceSeq if unsafe else UFOpInPlace)(ctx, 'B%d_' % i, sp)
         L = odl.MatrixOperator(M, domain=sp, range=sp)
         Mrows = [[M[r, c] for c in range(2)] for r in range(2)]
         sem = {'A': A.values, 'B': B.values,
@@ -376,9 +399,10 @@ def case(ctx, kind, trees, field='real'):
             ret = expr(x, out=y)
             ctx.fact('returns-out/' + tag, ret is y)
             ctx.eq('value-inplace/' + tag, y, ref)
-            z = x.copy()
-            expr(z, out=z)
-            ctx.eq('value-aliased/' + tag, z, ref)
+            if not unsafe:
+                z = x.copy()
+                expr(z, out=z)
+                ctx.eq('value-aliased/' + tag, z, ref)
 
 
 def _uses(t, op):
